@@ -259,7 +259,7 @@ struct Model
             return true;
         }
         if (k == "fnfilter")
-            return ((m.cid & 0xfff) % (n.a + 2)) != 0;
+            return ((m.cid & 0xffff) % (n.a + 2)) != 0;
         if (k == "fnfmt") {
             m.fmt = "F" + std::to_string(n.id) + "<" + m.current() + ">";
             m.formatted = true;
